@@ -37,3 +37,9 @@ func VerifReadBufSize() int { return readBufSize }
 
 // VerifNewVolatile returns the library's own in-memory Persistence.
 func VerifNewVolatile() Persistence { return newVolatile() }
+
+// VerifInitSessionPlain is what VolatileSession does with its own map: a new
+// session on p WITHOUT the sequence-number-and-checksum layer.
+func VerifInitSessionPlain(clientID string, p Persistence, c *Config) (*Client, error) {
+	return initSession(clientID, p, c)
+}
